@@ -6,22 +6,30 @@
    fed to the loader and the resulting rules are matched against d itself:
      ObsLoaded true  — loads and matches;   ObsLoaded false — loads, does not match;
      ObsLoadErr      — the loader rejects the text;   ObsUnm — outside the model (never, for the theorems below).
-   v = Orig is the unchanged source, v = Fixed the source with proposed_fixes/C19-literal-needle.diff.
+   v = Fixed is the design /repo has since commit f2d3c2b (literal, verified needle + json quoting);
+   v = Orig is the design before that commit (kept below as history).
    regex() is a Section variable (oracle) everywhere: no theorem depends on regex semantics.
 
-   Tie to /repo: Gen/C19Patterns.v (regenerated on every run) must equal the literal lists of the model and
-   the statement lists in C19/Source.v ([c19_source_is_modelled]); harness/c19.py compares model and code. *)
+   Tie to /repo: Gen/C19Patterns.v (regenerated on every run) must say the source has the repaired design
+   and must equal the literal lists of the model and the statement lists in C19/Source.v
+   ([c19_source_is_modelled], [c19_source_has_repaired_design]); harness/c19.py compares model and code. *)
 From Coq Require Import String List Bool NArith.
 From Tally Require Import Lib.Str C19.Model C19.Source Gen.C19Patterns C19.Proofs.
 Import ListNotations.
 Open Scope string_scope.
 
-(* ---- the source under test is the one the model was written against (literals + statements) ---- *)
+(* ======================================================================================= the tie *)
+(* the source under test is the one the model was written against (literals + statements) ... *)
 Theorem c19_source_is_modelled : source_ok.
 Proof. exact source_is_modelled. Qed.
 Print Assumptions c19_source_is_modelled.
 
-(* ---- the property at full strength, for a design v ---- *)
+(* ... and it has the repaired design: a return to the old design breaks this obligation *)
+Theorem c19_source_has_repaired_design : C19Src.variant_of_source = Fixed.
+Proof. exact source_is_fixed. Qed.
+Print Assumptions c19_source_has_repaired_design.
+
+(* ======================================================================================= the property *)
 Definition c19_suggestion_loads_statement (v : variant) : Prop :=
   forall (re : string -> string -> option bool) (d : string) (neg : bool),
     exists b, observe re v d (tags_of neg) = ObsLoaded b.
@@ -29,41 +37,16 @@ Definition c19_suggestion_matches_statement (v : variant) : Prop :=
   forall (re : string -> string -> option bool) (d : string) (neg : bool),
     observe re v d (tags_of neg) = ObsLoaded true.
 
-(* ---- unchanged source: both are false ---- *)
-Theorem c19_suggestion_matches_refuted : ~ c19_suggestion_matches_statement Orig.
-Proof. exact matches_refuted. Qed.
-Print Assumptions c19_suggestion_matches_refuted.
+(* for EVERY description (all byte strings), with or without the refund tag, the rule text discover
+   suggests is accepted by the loader and matches that very description *)
+Theorem c19_suggestion_matches : c19_suggestion_matches_statement C19Src.variant_of_source.
+Proof. exact matches_source. Qed.
+Print Assumptions c19_suggestion_matches.
 
-Theorem c19_suggestion_loads_refuted : ~ c19_suggestion_loads_statement Orig.
-Proof. exact loads_refuted. Qed.
-Print Assumptions c19_suggestion_loads_refuted.
+Theorem c19_suggestion_loads : c19_suggestion_loads_statement C19Src.variant_of_source.
+Proof. exact loads_source. Qed.
+Print Assumptions c19_suggestion_loads.
 
-(* the three ways the unchanged suggestion misses its own description (each loads, none matches):
-   a multi-word suggestion (\s* inside contains()), an escaped metacharacter, a store number cut out of a word *)
-Theorem c19_orig_failure_witnesses :
-  observe no_re Orig "Acme Foo" [] = ObsLoaded false /\
-  observe no_re Orig "ACME.COM" [] = ObsLoaded false /\
-  observe no_re Orig "STORE #12X" [] = ObsLoaded false.
-Proof. exact (conj orig_multiword_fails (conj orig_metachar_fails orig_storeno_fails)). Qed.
-Print Assumptions c19_orig_failure_witnesses.
-
-(* what does hold for the unchanged source: if the description has no line feed, the store-number
-   substitution (\s+#\d+) did not fire, and the cleaned description is one word without regex
-   metacharacters (equivalently: the suggestion is a single plain word), the suggestion loads and matches *)
-Theorem c19_suggestion_matches_partial :
-  forall (re : string -> string -> option bool) (d : string) (neg : bool),
-    plain_guard d = true -> observe re Orig d (tags_of neg) = ObsLoaded true.
-Proof. exact matches_partial. Qed.
-Print Assumptions c19_suggestion_matches_partial.
-
-(* ... and every suggestion for a description without a NUL byte at least loads (to one rule) *)
-Theorem c19_suggestion_loads_partial :
-  forall (re : string -> string -> option bool) (d : string) (neg : bool),
-    no_nul d = true -> exists b, observe re Orig d (tags_of neg) = ObsLoaded b.
-Proof. exact loads_partial. Qed.
-Print Assumptions c19_suggestion_loads_partial.
-
-(* ---- repaired source: the full statements hold for ALL descriptions ---- *)
 Theorem c19_suggestion_matches_fixed : c19_suggestion_matches_statement Fixed.
 Proof. exact matches_fixed. Qed.
 Print Assumptions c19_suggestion_matches_fixed.
@@ -78,6 +61,15 @@ Theorem c19_suggestion_rule_fixed :
 Proof. exact rule_of_loaded. Qed.
 Print Assumptions c19_suggestion_rule_fixed.
 
+(* appended (on a new line) to ANY rules text that loads — in particular one that already holds a rule with
+   the same name — the suggestion adds exactly its rule after the existing ones: nothing is merged or dropped *)
+Theorem c19_suggestion_appended_fixed :
+  forall existing rs d neg, parse_merchants existing = Loaded rs ->
+    exists text, suggested_rule Fixed d (tags_of neg) = Some text /\
+      parse_merchants (existing ++ String LF text) = Loaded (rs ++ [rule_of d]).
+Proof. exact appended_fixed. Qed.
+Print Assumptions c19_suggestion_appended_fixed.
+
 (* appending the suggestions for the Unknown descriptions ds to any existing rules classifies every one
    of them, so the Unknown list strictly shrinks: the discover-write-rerun loop terminates *)
 Theorem c19_unknown_list_shrinks_fixed :
@@ -88,25 +80,43 @@ Theorem c19_unknown_list_shrinks_fixed :
 Proof. exact unknown_shrinks. Qed.
 Print Assumptions c19_unknown_list_shrinks_fixed.
 
-(* ---- the claimed theorems for the tree under test: unconditional as soon as the regenerated
-        Gen/C19Patterns.v says the source has the repaired design ---- *)
-Theorem c19_suggestion_matches :
-  C19Src.variant_of_source = Fixed -> c19_suggestion_matches_statement C19Src.variant_of_source.
-Proof. exact matches_of_source. Qed.
-Print Assumptions c19_suggestion_matches.
+(* ======================================================================================= history
+   The design before /repo commit f2d3c2b (v = Orig): suggest_pattern's REGEX text was wrapped in contains(),
+   which is a literal substring test. Both full statements were false for it; what did hold is kept as the
+   _partial theorems. None of this is claimed of the current tree. *)
+Theorem c19_suggestion_matches_refuted : ~ c19_suggestion_matches_statement Orig.
+Proof. exact matches_refuted. Qed.
+Print Assumptions c19_suggestion_matches_refuted.
 
-Theorem c19_suggestion_loads :
-  C19Src.variant_of_source = Fixed -> c19_suggestion_loads_statement C19Src.variant_of_source.
-Proof. exact loads_of_source. Qed.
-Print Assumptions c19_suggestion_loads.
+Theorem c19_suggestion_loads_refuted : ~ c19_suggestion_loads_statement Orig.
+Proof. exact loads_refuted. Qed.
+Print Assumptions c19_suggestion_loads_refuted.
 
-(* ---- non-vacuity ---- *)
-Example c19_guard_satisfiable :
-  plain_guard "Netflix.com 12345 SEATTLE WA" = false /\ plain_guard "NETFLIX 12345 SEATTLE WA" = true /\
-  plain_guard "sq *Bakery 98101" = true /\ plain_guard "Acme Foo" = false /\ plain_guard "STORE #12X" = false /\
-  suggest_pattern "sq *Bakery 98101" = Some "BAKERY" /\ no_nul "Say ""hi"" (a\b) $5.00 *" = true /\
-  observe no_re Orig "Say ""hi"" (a\b) $5.00 *" ["refund"] = ObsLoaded false.
-Proof. vm_compute. repeat split; reflexivity. Qed.
+(* three ways the old suggestion missed its own description (each loads, none matches): a multi-word
+   suggestion (\s* inside contains()), an escaped metacharacter, a store number cut out of a word *)
+Theorem c19_orig_failure_witnesses :
+  observe no_re Orig "Acme Foo" [] = ObsLoaded false /\
+  observe no_re Orig "ACME.COM" [] = ObsLoaded false /\
+  observe no_re Orig "STORE #12X" [] = ObsLoaded false.
+Proof. exact (conj orig_multiword_fails (conj orig_metachar_fails orig_storeno_fails)). Qed.
+Print Assumptions c19_orig_failure_witnesses.
+
+(* old design: no line feed, the store-number substitution (\s+#\d+) did not fire, and the cleaned
+   description is one word without regex metacharacters  ==>  the suggestion loaded and matched *)
+Theorem c19_suggestion_matches_partial :
+  forall (re : string -> string -> option bool) (d : string) (neg : bool),
+    plain_guard d = true -> observe re Orig d (tags_of neg) = ObsLoaded true.
+Proof. exact matches_partial. Qed.
+Print Assumptions c19_suggestion_matches_partial.
+
+(* old design: every suggestion for a description without a NUL byte at least loaded (to one rule) *)
+Theorem c19_suggestion_loads_partial :
+  forall (re : string -> string -> option bool) (d : string) (neg : bool),
+    no_nul d = true -> exists b, observe re Orig d (tags_of neg) = ObsLoaded b.
+Proof. exact loads_partial. Qed.
+Print Assumptions c19_suggestion_loads_partial.
+
+(* ======================================================================================= non-vacuity *)
 Example c19_fixed_examples :
   suggested_rule Fixed "Starbucks Store 12345 Seattle WA" [] =
     Some ("[Starbucks Store]" ++ s1 LF ++ "match: contains(""STARBUCKS STORE"")" ++ s1 LF ++ "category: CATEGORY" ++ s1 LF ++ "subcategory: SUBCATEGORY") /\
@@ -115,9 +125,23 @@ Example c19_fixed_examples :
   observe no_re Fixed "say ""hi"" a\b" ["refund"] = ObsLoaded true /\
   observe no_re Fixed (String (chr 0) "x y") [] = ObsLoaded true.
 Proof. vm_compute. repeat split; reflexivity. Qed.
+(* an existing [Amazon] rule that does not cover the description, the same-named suggestion appended *)
+Example c19_appended_example :
+  let existing := "[AMAZON]" ++ s1 LF ++ "match: contains(""AMZN"")" ++ s1 LF ++ "category: Shopping" ++ s1 LF in
+  let d := "AMAZON 00012345 SEATTLE WA" in
+  observe_text no_re existing d = ObsLoaded false /\
+  (exists text, suggested_rule Fixed d [] = Some text /\ observe_text no_re (existing ++ String LF text) d = ObsLoaded true) /\
+  name (rule_of d) = "Amazon".
+Proof. vm_compute. repeat split; try reflexivity. eexists; split; reflexivity. Qed.
 Example c19_shrinks_hypothesis_satisfiable :
   let existing := [ {| name := "Netflix"; mexpr := ECall "contains" "NETFLIX"; category := "Fun" |} ] in
   matched no_re existing "Acme Foo" = Some false /\ matched no_re existing "ACME.COM" = Some false /\
   unknown_count no_re existing ["Acme Foo"; "ACME.COM"; "netflix 1234"] = 2 /\
   unknown_count no_re (existing ++ map rule_of ["Acme Foo"; "ACME.COM"]) ["Acme Foo"; "ACME.COM"; "netflix 1234"] = 0.
+Proof. vm_compute. repeat split; reflexivity. Qed.
+Example c19_old_guard_satisfiable :
+  plain_guard "Netflix.com 12345 SEATTLE WA" = false /\ plain_guard "NETFLIX 12345 SEATTLE WA" = true /\
+  plain_guard "sq *Bakery 98101" = true /\ plain_guard "Acme Foo" = false /\ plain_guard "STORE #12X" = false /\
+  suggest_pattern "sq *Bakery 98101" = Some "BAKERY" /\ no_nul "Say ""hi"" (a\b) $5.00 *" = true /\
+  observe no_re Orig "Say ""hi"" (a\b) $5.00 *" ["refund"] = ObsLoaded false.
 Proof. vm_compute. repeat split; reflexivity. Qed.
